@@ -8,7 +8,7 @@ def main(tier, args):
                    plain_srcs=[vf.VERIF + "/engine/sched/log_stub.cpp"])
     # lane 0 = base menu, all scripts; lane 1 = life-cycle menu (re-initialise / re-create / close peer; at most 2 of them per history) on the scripts the harness selects for it.
     # One process per (configuration, lane, partition of the first operation): evaluations that do not depend on the script are shared inside a process.
-    depth, depth1, dl, np0, np1, cap = (5, 4, 80, 1, 3, 60000) if tier == "quick" else (7, 5, 1300, 3, 4, 300000)
+    depth, depth1, dl, np0, np1, cap = (5, 4, 80, 2, 4, 60000) if tier == "quick" else (7, 5, 1300, 4, 6, 300000)
     res = vf.Result(); log = open(vf.BUILD + "/C03/log.txt", "w")
     jobs = []
     for cfg in range(NCFG):
@@ -18,7 +18,9 @@ def main(tier, args):
         for part in range(np0):
             jobs.append(("cfg%d:base:p%d" % (cfg, part), [exe, str(cfg), str(depth), "0", str(NSCRIPTS - 1), "0", str(part), str(np0)]))
     if args.only: jobs = [j for j in jobs if j[0] == args.only]
-    vf.run_procs(res, jobs, env={"VERIF_DEADLINE_S": str(dl), "VERIF_C03_SHARED_CAP": str(cap)}, log=log, jobs=16)
+    # the explorer process forks thousands of times: a small quarantine keeps its address space (and so the cost of fork) small
+    vf.run_procs(res, jobs, env={"VERIF_DEADLINE_S": str(dl), "VERIF_C03_SHARED_CAP": str(cap),
+                                 "ASAN_OPTIONS": "detect_leaks=0:abort_on_error=0:quarantine_size_mb=16"}, log=log, jobs=16)
     vf.finish(PID, tier, res, t0,
               rule="BFS over all histories (depth %d) of enable/disable/feed/drain/pass on 7 configurations of 3 real FdEvents (shared descriptor, read/write/read|write/read|except/except-only masks, persistent and one-shot, pipes and a socketpair) x 67 callback scripts "
                    "(disable self; re-arm self (one-shot enable / persistent disable+enable); disable/enable/disable+enable/destroy another event on the same or on another descriptor ready in the same pass; destroy + create a new event on a third descriptor or on the SAME descriptor; "
